@@ -648,7 +648,7 @@ func (d *Driver) writeFiles(j *job, outs interface{}) interface{} {
 			d.tr.Emit("FileWritten", "job", j.key, "file", f.Key(), "path", d.rel(p))
 			continue
 		}
-		if strings.HasSuffix(f.Name, ".rdl") {
+		if strings.HasSuffix(f.Name, ".rdl") || strings.HasSuffix(f.Name, ".rdl2") {
 			// the stage links a directory of reference data (elsewhere, with other files in
 			// it) into its files directory and names one file below the link
 			od := path.Join(path.Dir(canon(d.psdir)), "refdata", strings.NewReplacer("/", "_", "[", "_", "]", "_", "|", "_").Replace(f.Key()))
@@ -656,8 +656,15 @@ func (d *Driver) writeFiles(j *job, outs interface{}) interface{} {
 			writeFile(path.Join(od, "data.bin"), fileContent(f.Key()))
 			writeFile(path.Join(od, "other1.bin"), []byte("reference data nobody named\n"))
 			writeFile(path.Join(od, "sub", "other2.bin"), []byte("more of it\n"))
-			lnk := path.Join(j.vj.FilesPath, strings.TrimSuffix(path.Base(p), ".rdl")+"_ref")
+			two := strings.HasSuffix(f.Name, ".rdl2")
+			lnk := path.Join(j.vj.FilesPath, strings.TrimSuffix(strings.TrimSuffix(path.Base(p), ".rdl2"), ".rdl")+"_ref")
 			os.Symlink(od, lnk)
+			if two {
+				// files/<name>_cur -> files/<name>_ref -> the directory elsewhere
+				cur := strings.TrimSuffix(lnk, "_ref") + "_cur"
+				os.Symlink(lnk, cur)
+				lnk = cur
+			}
 			p = path.Join(lnk, "data.bin")
 			d.fmu.Lock()
 			d.filePath[f.Key()] = canon(p)
